@@ -206,6 +206,57 @@ func (g *Gen) longSyntax() string {
 	return sign + g.digitsStr(n1) + glue + g.digitsStr(n2)
 }
 
+// scanStream: several values on one input stream for fmt.Fscan: well-formed numerals, special names (long forms leave
+// their tail in the stream), junk, every kind of white space between them or none at all
+func (g *Gen) scanStream() {
+	k := 1 + g.r.Intn(4)
+	seps := []string{" ", " ", "\t", "\n", "  ", "\r\n", " \n\t ", "", "x", ","}
+	specials := []string{"inf", "Inf", "INF", "+inf", "-Inf", "Infinity", "-infinity", "nan", "NaN", "NAN", "infx", "in", "i", "n", "na", "nax", "iNf", "-nan", "+NaN"}
+	junk := []string{"x", "1x", "--1", "+-1", "1e", "e5", "_1", "1__2", ".", "+", "-", "1e+", "1.2.3", "1+2", "1-2", "1e5-3", "0x10", "1_", "_", "1e5e5", "++1", "5.", ".5", "1._5"}
+	var sb strings.Builder
+	if g.r.Intn(3) == 0 {
+		sb.WriteString(seps[g.r.Intn(7)])
+	}
+	np := k + g.r.Intn(2) - g.r.Intn(2)
+	if np < 0 {
+		np = 0
+	}
+	for i := 0; i < np; i++ {
+		switch g.r.Intn(10) {
+		case 0, 1:
+			sb.WriteString(specials[g.r.Intn(len(specials))])
+		case 2:
+			sb.WriteString(junk[g.r.Intn(len(junk))])
+		case 3:
+			sb.WriteString(g.tieLiteral())
+		case 4:
+			sb.WriteString([]string{"1e7000", "-1e99999", "9.9e6144", "1e-7000", "1e6145", "9999999999999999999999999999999999e6111", "99999999999999999999999999999999995e6110"}[g.r.Intn(7)])
+		default:
+			sb.WriteString(g.validLiteral())
+		}
+		if i < np-1 || g.r.Intn(3) == 0 {
+			sb.WriteString(seps[g.r.Intn(len(seps))])
+		}
+	}
+	e := Ev{"op": "ScanStream", "s": ints([]byte(sb.String())), "k": k}
+	e.setDec("prev", mk(false, big.NewInt(777), -3))
+	g.emit(e)
+}
+
+func (g *Gen) scanVerb() {
+	verbs := []byte{'e', 'E', 'f', 'F', 'g', 'G', 'v', 'v', 'v', 'd', 's', 'x', 'q', 't', 'b', 'c', 'U', 'T', 'p', 'z'}
+	s := g.validLiteral()
+	switch g.r.Intn(6) {
+	case 0:
+		s = " " + s + " 7"
+	case 1:
+		s = []string{"inf", "-Inf", "NaN", "Infinity", "x", "", " ", "1e", "1_", "--1"}[g.r.Intn(10)]
+	case 2:
+		s = g.tieLiteral()
+	}
+	g.emit(Ev{"op": "Scan", "s": ints([]byte(s)), "verb": int(verbs[g.r.Intn(len(verbs))])})
+}
+
 func genC05(g *Gen) {
 	g.setMode(0)
 	// (1) exhaustive syntax enumeration (share of the budget)
@@ -227,7 +278,14 @@ func genC05(g *Gen) {
 		"in", "infi", "infinit", "infinityy", "na", "nann", "", "+", "-", ".", "-.", "+.", "e", "e5", ".e5", "1e", "1e+", "1e-", "0", "-0", "+0", "0e0", "-0.000e-7000", "00", "0_0", "_0", "0_",
 		"1_.0", "1._0", "1_e5", "1e_5", "1e5_", "1.5_e1", "1__0", "1_0_0", "1e1_0", "1e+_1", "1.", ".5", "5.e3", "1..0", "1.0.0", "1e5e5", "1e5.0", "--1", "+-1", "1+1", "1e++1", " 1", "1 ", "0x10", "1,5", "١"}
 	for !g.w.full() {
-		switch g.r.Intn(14) {
+		switch g.r.Intn(17) {
+		case 14, 15:
+			if g.r.Intn(4) == 0 {
+				g.setMode(g.r.Intn(6))
+			}
+			g.scanStream()
+		case 16:
+			g.scanVerb()
 		case 13:
 			if g.r.Intn(8) == 0 {
 				g.parse("Parse", g.longLiteral())
